@@ -19,7 +19,9 @@ import frouros.detectors.concept_drift as cd  # noqa: E402
 from frouros.detectors.concept_drift.exceptions import InvalidAverageRunLengthError  # noqa: E402
 from frouros.detectors.concept_drift.streaming.change_detection.bocd import GaussianUnknownMean  # noqa: E402
 
-FL = [-1.0, -1e-9, 0.0, 5e-324, 1e-9, 0.5, 1 - 1e-9, 1.0, 1 + 1e-9, 2.0, 1e9]
+# boundary grid for real-valued parameters; NaN and the infinities are values a caller can pass too: NaN lies outside every stated
+# domain (every comparison with it is false), +inf inside the half-open ones
+FL = [-1.0, -1e-9, 0.0, 5e-324, 1e-9, 0.5, 1 - 1e-9, 1.0, 1 + 1e-9, 2.0, 1e9, math.nan, math.inf, -math.inf]
 INTS = [-5, -1, 0, 1, 2, 3, 7]
 
 # stated domain per class: parameter -> (kind, predicate(value, params))
@@ -157,7 +159,7 @@ def run(out: Outcome) -> None:
                 pass
         out.case({"class": cls, "foreign_configs": True})
     # BOCD model, callbacks, other constructors
-    for pv, dv in itertools.product([-1.0, 0.0, 0.5, 2.0], [-1.0, 0.0, 1e-9, 1.0]):
+    for pv, dv in itertools.product([-1.0, 0.0, 0.5, 2.0], [-1.0, 0.0, 1e-9, 1.0, math.nan, math.inf]):
         try:
             GaussianUnknownMean(prior_mean=0.0, prior_var=pv, data_var=dv)
             k = None
@@ -165,7 +167,7 @@ def run(out: Outcome) -> None:
             k = KINDS.get(type(e), "Other")
         lines.append(f"cfg Gaussian prior_var={f2h(pv)} data_var={f2h(dv)}")
         expect.append((k, {"class": "GaussianUnknownMean", "prior_var": pv, "data_var": dv}))
-        if dv <= 0 and k is None:
+        if not dv > 0 and k is None:
             out.violation(f"GaussianUnknownMean(data_var={dv}) accepted although data_var must be > 0", {"data_var": dv})
     from frouros.callbacks.batch import PermutationTestDistanceBased, ResetStatisticalTest
     from frouros.detectors.data_drift.batch import MMD, PSI
